@@ -1213,6 +1213,22 @@ func planRun(p *si.Program, cycles int) []string {
 
 var faultStatuses = []int{201, 302, 400, 404, 500, 503}
 
+// resentByTransport tells whether net/http's Transport re-sends a request of this definition by itself when the reused
+// connection it went over is closed before any byte of an answer (http.Request.isReplayable: GET, HEAD, OPTIONS, TRACE,
+// or any method under an Idempotency-Key / X-Idempotency-Key header; the gun's requests always have GetBody).
+func resentByTransport(def *si.Request) bool {
+	switch strings.ToUpper(def.Method) {
+	case "", "GET", "HEAD", "OPTIONS", "TRACE":
+		return true
+	}
+	for _, h := range def.Headers {
+		if k := strings.ToLower(h.Name); k == "idempotency-key" || k == "x-idempotency-key" {
+			return true
+		}
+	}
+	return false
+}
+
 func genCase(t *rapid.T) Case {
 	prog, planted := genProgramPlanted(t, false)
 	c := Case{Prog: prog, Instances: 1}
@@ -1232,8 +1248,12 @@ func genCase(t *rapid.T) Case {
 	}
 	var effective []fk
 	var bare, bareBody []int // positions whose step has no postprocessors; those of them whose answer has a body
+	var notResent []int      // positions >= 1 (their request can go over a reused connection) whose request net/http never re-sends
 	for n, name := range defs {
 		def := c.Prog.Request(name)
+		if n >= 1 && !resentByTransport(def) {
+			notResent = append(notResent, n)
+		}
 		if len(def.Posts) == 0 {
 			bare = append(bare, n)
 			if def.Method != "HEAD" {
@@ -1281,6 +1301,10 @@ func genCase(t *rapid.T) Case {
 				continue
 			}
 			f = FaultAt{N: ns[uni(t, 0, len(ns)-1, "plantedAt")], Kind: si.FaultObjString}
+		} else if len(notResent) > 0 && chance(t, 22, "closeOnReusedConn") {
+			// the target drops the connection without answering a request that is not the first of the run (with keep-alive:
+			// one sent over a connection taken from the idle pool)
+			f = FaultAt{N: notResent[uni(t, 0, len(notResent)-1, "closeReusedAt")], Kind: si.FaultClose}
 		} else if len(bare) > 0 && chance(t, 30, "bareTransportFault") {
 			// a failure of the exchange itself on a step without postprocessors
 			// (the answer to HEAD has no body to cut short)
@@ -1309,8 +1333,25 @@ func genCase(t *rapid.T) Case {
 		hasClose = hasClose || f.Kind == si.FaultClose
 		c.Faults = append(c.Faults, f)
 	}
-	// a closed connection must not be retried silently by Go's transport: no connection reuse then
-	c.KeepAlive = !hasClose && rapid.Bool().Draw(t, "keepAlive")
+	// A request whose connection was closed without an answer is re-sent silently by Go's transport (net/http
+	// Transport: shouldRetryRequest) when the connection was a reused one and the request is replayable (GET / HEAD /
+	// OPTIONS / TRACE or an Idempotency-Key header): the scenario gun never learns of the failure. No connection reuse
+	// where that can happen. The first request of the run goes over a fresh connection, POST / PUT / DELETE are never
+	// re-sent: connections may be kept alive when the close faults hit such requests only. (Judged by the fault-free
+	// plan, which earlier faults and the order of the scenarios can shift: Case.reply voids a close fault that turns out
+	// to hit a replayable request on a kept-alive connection.)
+	closeNeverResent := true
+	for _, f := range c.Faults {
+		if f.Kind == si.FaultClose && f.N != 0 && resentByTransport(c.Prog.Request(defs[f.N])) {
+			closeNeverResent = false
+		}
+	}
+	switch {
+	case !hasClose:
+		c.KeepAlive = rapid.Bool().Draw(t, "keepAlive")
+	case closeNeverResent:
+		c.KeepAlive = chance(t, 75, "keepAliveWithClose")
+	}
 	c.AnswLog = chance(t, 25, "answlog")
 	return c
 }
